@@ -494,7 +494,22 @@ theorem loadConfig_toArray (fl : Rat → Rat) (hfl : ∀ x, |fl x - x| ≤ |x| /
     rw [srr_roundtrip fl hfl c hok]
     rfl
 
-theorem data_roundtrip (L : Laser) (h : layersOk L.kind L.layers = true) :
+theorem nativeDtype_of_native (d : Str) (h : isNativeDtype d = true) : nativeDtype d = d := by
+  unfold nativeDtype
+  split
+  · simp [isNativeDtype] at h
+  · rfl
+
+theorem map_nativeDtype (fields : List (Str × Str)) (h : fields.all (fun f => isNativeDtype f.2) = true) :
+    (fields.map fun f => (f.1, nativeDtype f.2)) = fields := by
+  conv => rhs; rw [← List.map_id fields]
+  apply List.map_congr_left
+  intro f hf
+  have := (List.all_eq_true.mp h) f hf
+  simp [nativeDtype_of_native f.2 this]
+
+theorem data_roundtrip (L : Laser) (h : layersOk L.kind L.layers = true)
+    (hnat : (L.kind != .srr || L.fields.all fun f => isNativeDtype f.2) = true) :
     ∃ d, dataToArray L = .ok d ∧ d.fields = L.fields ∧
       ∀ cal cfg info, construct L.kind d cal cfg info = .ok (mkLaser L.kind L.fields L.layers cal cfg info) := by
   cases hk : L.kind with
@@ -515,8 +530,11 @@ theorem data_roundtrip (L : Laser) (h : layersOk L.kind L.layers = true) :
         simp only [List.all_eq_true, beq_iff_eq]
         intro m hm
         exact (hall m (by simp [hm])).1
+      have hmap : (L.fields.map fun f => (f.1, nativeDtype f.2)) = L.fields := by
+        apply map_nativeDtype
+        simpa [hk] using hnat
       refine ⟨⟨L.fields, (ls.length + 1) :: l.shape, (l :: ls).flatMap (·.cells)⟩, ?_, rfl, ?_⟩
-      · simp only [dataToArray, hk, hl, hshape, if_true]; rfl
+      · simp only [dataToArray, hk, hl, hshape, if_true, hmap]; rfl
       · intro cal cfg info
         have hs := splitLayers_stack L.fields l.shape (l :: ls) hall
         simp only [List.length_cons] at hs
@@ -1033,16 +1051,17 @@ structure OkFacts (L : Laser) : Prop where
   kind : L.config.isSRR = (L.kind == .srr)
   cfg : L.config.ok = true
   layers : layersOk L.kind L.layers = true
+  native : (L.kind != .srr || L.fields.all fun f => isNativeDtype f.2) = true
   info : noNulEnd (packInfoRaw L.info) = true
 
 theorem okFacts_iff (L : Laser) : L.ok = true ↔ OkFacts L := by
   simp only [Laser.ok, Bool.and_eq_true, decide_eq_true_eq, beq_iff_eq, List.all_eq_true, Bool.not_eq_true',
     List.isEmpty_eq_false_iff]
   constructor
-  · rintro ⟨⟨⟨⟨⟨⟨⟨⟨hne, hnul⟩, hnodup⟩, ⟨hcn, hcs⟩, hfs⟩, hcal⟩, hkind⟩, hcfg⟩, hlayers⟩, hinfo⟩
-    exact ⟨hne, hnul, hnodup, hcn, hcs, hfs, hcal, hkind, hcfg, hlayers, hinfo⟩
-  · rintro ⟨hne, hnul, hnodup, hcn, hcs, hfs, hcal, hkind, hcfg, hlayers, hinfo⟩
-    exact ⟨⟨⟨⟨⟨⟨⟨⟨hne, hnul⟩, hnodup⟩, ⟨hcn, hcs⟩, hfs⟩, hcal⟩, hkind⟩, hcfg⟩, hlayers⟩, hinfo⟩
+  · rintro ⟨⟨⟨⟨⟨⟨⟨⟨⟨hne, hnul⟩, hnodup⟩, ⟨hcn, hcs⟩, hfs⟩, hcal⟩, hkind⟩, hcfg⟩, hlayers⟩, hnat⟩, hinfo⟩
+    exact ⟨hne, hnul, hnodup, hcn, hcs, hfs, hcal, hkind, hcfg, hlayers, hnat, hinfo⟩
+  · rintro ⟨hne, hnul, hnodup, hcn, hcs, hfs, hcal, hkind, hcfg, hlayers, hnat, hinfo⟩
+    exact ⟨⟨⟨⟨⟨⟨⟨⟨⟨hne, hnul⟩, hnodup⟩, ⟨hcn, hcs⟩, hfs⟩, hcal⟩, hkind⟩, hcfg⟩, hlayers⟩, hnat⟩, hinfo⟩
 
 theorem okFacts (L : Laser) (h : L.ok = true) : OkFacts L := (okFacts_iff L).mp h
 
@@ -1133,7 +1152,7 @@ theorem ok_calByName (L : Laser) (hL : L.ok = true) :
     ({ L with cal := calByName L.fields L.cal } : Laser).ok = true := by
   have F := okFacts L hL
   apply (okFacts_iff _).mpr
-  refine ⟨F.ne, F.nul, F.nodup, ?_, ?_, ?_, ?_, F.kind, F.cfg, F.layers, F.info⟩
+  refine ⟨F.ne, F.nul, F.nodup, ?_, ?_, ?_, ?_, F.kind, F.cfg, F.layers, F.native, F.info⟩
   · show (keys (calByName L.fields L.cal)).Nodup
     rw [keys_calByName]; exact F.nodup
   · intro k hk
@@ -1327,19 +1346,26 @@ theorem specOld_of_not_cmpGe (b : Bool) (p : PathInfo) (ver : Str) (L : Laser) (
     have : r = -1 := by simpa [hc] using h
     simp [this]
 
-theorem saveV06_ok (fl : Rat → Rat) (ver : Str) (L : Laser) (hl : layersOk L.kind L.layers = true) :
+theorem saveV06_ok (fl : Rat → Rat) (ver : Str) (L : Laser) (hl : layersOk L.kind L.layers = true)
+    (hnat : (L.kind != .srr || L.fields.all fun f => isNativeDtype f.2) = true) :
     ∃ f, saveV06 fl ver L = .ok f ∧ f.header = none ∧ f.version = some (stripNul ver) := by
-  obtain ⟨d, hd, _, _⟩ := data_roundtrip L hl
+  obtain ⟨d, hd, _, _⟩ := data_roundtrip L hl hnat
   simp only [saveV06, hd, bind, Except.bind, pure, Except.pure]
   exact ⟨_, rfl, rfl, rfl⟩
 
-theorem saveV07_ok (fl : Rat → Rat) (ver : Str) (L : Laser) (hl : layersOk L.kind L.layers = true) :
+theorem saveV07_ok (fl : Rat → Rat) (ver : Str) (L : Laser) (hl : layersOk L.kind L.layers = true)
+    (hnat : (L.kind != .srr || L.fields.all fun f => isNativeDtype f.2) = true) :
     ∃ f, saveV07 fl ver L = .ok f ∧ f.header = none ∧ f.version = some (stripNul ver) := by
-  obtain ⟨d, hd, _, _⟩ := data_roundtrip L hl
+  obtain ⟨d, hd, _, _⟩ := data_roundtrip L hl hnat
   simp only [saveV07, hd, bind, Except.bind, pure, Except.pure]
   exact ⟨_, rfl, rfl, rfl⟩
 
 theorem layersOk_of_ok (L : Laser) (h : L.ok = true) : layersOk L.kind L.layers = true := by
+  simp only [Laser.ok, Bool.and_eq_true] at h
+  exact h.1.1.2
+
+theorem native_of_ok (L : Laser) (h : L.ok = true) :
+    (L.kind != .srr || L.fields.all fun f => isNativeDtype f.2) = true := by
   simp only [Laser.ok, Bool.and_eq_true] at h
   exact h.1.2
 
